@@ -205,3 +205,51 @@ Definition check_placement_fast (vr : vresources) (m : pmachine) (cs : list pcon
                                (chip_loads vr pl r))
              (dedup (all_resources vr m cs))
   && forallb (check_constraint pl) cs.
+
+(* ---------------------------------------------------------------------------------------------- *)
+(* Predicates used in the statements of Props/C02.v about the annealer and the entry points         *)
+(* ---------------------------------------------------------------------------------------------- *)
+(* the outcome is a placement or one of the two documented placement errors *)
+Definition documented_outcome (r : result placement) : Prop :=
+  (exists pl, r = Ok pl) \/ r = Failed E_insufficient \/ r = Failed E_invalid.
+
+(* two machines with the same dimensions and dead chips *)
+Definition same_frame (m0 m : pmachine) : Prop :=
+  pm_width m = pm_width m0 /\ pm_height m = pm_height m0 /\ pm_dead m = pm_dead m0.
+
+(* the part of wf_problem that survives same-chip merging (merged vertices have negative identifiers) *)
+Record wf_core (vr : vresources) (m0 : pmachine) : Prop := {
+  wc_nodup : NoDup (map fst vr);
+  wc_nonneg : forall v d r q, In (v, d) vr -> In (r, q) d -> 0 <= q;
+  wc_known : forall v d r q, In (v, d) vr -> In (r, q) d -> resource_known m0 r }.
+
+(* bookkeeping invariant of every placer: what a working chip still offers + what the constraints processed so far
+   reserve + what the vertices placed so far need never exceeds what the chip had; nothing is negative *)
+Record Inv (vr : vresources) (m0 : pmachine) (done : list pconstr) (m : pmachine) (pl : placement) : Prop := {
+  inv_frame : same_frame m0 m;
+  inv_keys : forall c, live m0 c = true -> map fst (chip_res m c) = map fst (chip_res m0 c);
+  inv_le : forall c r, live m0 c = true -> In r (map fst (chip_res m0 c)) ->
+           rget r (chip_res m c) + reserved done c r + load vr pl c r <= rget r (chip_res m0 c);
+  inv_nonneg : forall c r q, live m0 c = true -> In (r, q) (chip_res m c) -> 0 <= q;
+  inv_exc_nodup : NoDup (map fst (pm_exc m)) }.
+
+(* a partial placement: a dictionary of vertices of the problem on working chips *)
+Record PlInv (vr : vresources) (m0 : pmachine) (pl : placement) : Prop := {
+  pi_nodup : NoDup (map fst pl);
+  pi_live : forall v c, zassoc v pl = Some c -> live m0 c = true;
+  pi_known : forall v, In v (map fst pl) -> In v (map fst vr) }.
+
+(* state invariant of the annealing kernel: bookkeeping, every vertex placed, location constraints honoured and their
+   vertices fixed, l2v lists only vertices that are on the chip, each once *)
+Record SAInv (vr : vresources) (m0 : pmachine) (cs : list pconstr) (fixed : list vertex) (s : sa_state) : Prop := {
+  sv_inv : Inv vr m0 cs (st_m s) (st_pl s);
+  sv_pl : PlInv vr m0 (st_pl s);
+  sv_all : forall v, In v (map fst vr) -> In v (map fst (st_pl s));
+  sv_loc : forall v c, In (PCLocation v c) cs -> zassoc v (st_pl s) = Some c;
+  sv_fixed : forall v c, In (PCLocation v c) cs -> In v fixed;
+  sv_l2v : forall c vs v, cassoc c (st_l2v s) = Some vs -> In v vs -> zassoc v (st_pl s) = Some c;
+  sv_l2v_nodup : forall c vs, cassoc c (st_l2v s) = Some vs -> NoDup vs }.
+
+(* the state place() hands to the kernel *)
+Definition sa_init_state (s0 : sa_start) : sa_state :=
+  {| st_pl := ss_placement s0; st_l2v := init_l2v (ss_machine s0) (ss_placement s0); st_m := ss_machine s0 |}.
